@@ -78,6 +78,23 @@ CLAIMED.update({
          "Universe capped at 50 000 values per case (larger cases are discarded and counted). Leaves (int / Str / bool) have no literal patterns in this language and are one abstract value.",
          "DESIGN.md §4 C07"),
 })
+CLAIMED.update({
+ "C18": ("exploration",
+         "model-based property testing of operation histories: generated driver programs over std Map / Set / List, expected output from BTreeMap / BTreeSet / Vec; executed by the reference interpreter and as compiled WebAssembly",
+         "Operation histories (up to 40 / 120 operations, operands chosen among all earlier results, dense / offset / wide key pools) are rendered as a samlang driver that prints every result; each printed line must equal the line computed from Rust's BTreeMap / BTreeSet / Vec, both under the reference interpreter (std sources interpreted by the spec semantics) and as compiled WebAssembly in node. Failures are keyed by the operation that printed the first wrong line.",
+         "Only the operations the property names are generated (merge, map, iter, forAll, exists, equal, compare, subset, disjoint are not judged). Histories whose arithmetic overflows 32 bits are discarded (unspecified behaviour).",
+         "DESIGN.md §4 C18"),
+ "C10": ("exploration",
+         "stateful differential property testing: generated edit histories applied to one ServerState, compared after every operation with a freshly started ServerState on the current contents",
+         "Histories of update / create / rename-module / remove operations over a pool of six module names with generated contents (imports forming cycles, self-imports, missing modules, transitive signature dependencies, private classes, type errors, empty and unparsable files). After every operation the rendered diagnostics of every module name ever mentioned and the set of modules must equal those of a fresh server. The whole history shrinks as one value.",
+         "Batches name a module at most once (as the LSP front end sends them). Diagnostics are compared as sorted lists of rendered strings.",
+         "DESIGN.md §4 C10"),
+ "C11": ("exploration",
+         "stateful robustness property testing / fuzzing of the services API: generated histories of edits and requests under catch_unwind",
+         "Edit histories (module-pool workspaces and G1 generated programs with their std modules, edited by single-fault mutants) interleaved with all nine request kinds at identifier positions and at positions outside the text, on live, renamed, removed and never-existing modules; every edit runs a GC slice. Any panic is a violation keyed by its source location; evidence reports per request kind how many requests were answered.",
+         "A use of a reclaimed string is visible only when it panics (the heap checks dereferences of deallocated strings); C17 decides the heap contract itself.",
+         "DESIGN.md §4 C11"),
+})
 NOT_YET = {}
 
 props = [json.loads(l) for l in open(os.path.join(HERE, "properties.jsonl"))]
